@@ -106,7 +106,7 @@ func cmdCheck(args []string) {
 	if t := os.Getenv("VERIF_TIER"); t == "quick" || t == "thorough" {
 		*tier = t
 	}
-	timeout := 15 * time.Second
+	timeout := 20 * time.Second
 	if *tier == "thorough" {
 		timeout = 60 * time.Second
 	}
